@@ -7,10 +7,12 @@ package main
 import (
 	"fmt"
 	"go/ast"
+	"go/parser"
 	"go/token"
 	"go/types"
 	"os"
 	"path/filepath"
+	"regexp"
 	"sort"
 	"strings"
 
@@ -43,8 +45,15 @@ func loadPkgs(mode packages.LoadMode, tests bool, patterns ...string) []*package
 	if len(patterns) == 1 && patterns[0] == "./pub" && os.Getenv("VERIF_NO_INLINE") == "" {
 		cfg.Overlay = pubOverlay()
 	}
-	if len(patterns) == 1 && (patterns[0] == "./streams" || patterns[0] == "./streams/...") && os.Getenv("VERIF_NO_INLINE") == "" {
-		cfg.Overlay = streamsOverlay()
+	if len(patterns) == 1 && os.Getenv("VERIF_NO_INLINE") == "" {
+		switch patterns[0] {
+		case "./streams":
+			cfg.Overlay = streamsOverlay()
+		case "./streams/values/...":
+			cfg.Overlay = valuesOverlay()
+		case "./streams/...":
+			cfg.Overlay = mergeOverlays(streamsOverlay(), valuesOverlay())
+		}
 	}
 	if tags := os.Getenv("VERIF_TAGS"); tags != "" {
 		cfg.BuildFlags = []string{"-tags=" + tags}
@@ -81,6 +90,94 @@ func streamsOverlay() map[string][]byte {
 		streamsOverlayMap = inlineOverlay("streams", knownStreamsFuncs, true)
 	}
 	return streamsOverlayMap
+}
+
+var valuesOverlayDone bool
+var valuesOverlayMap map[string][]byte
+
+var valuesKnownName = regexp.MustCompile(`^(Serialize|Deserialize|Less)[A-Z]`)
+
+// valuesOverlay: the same for the literal codecs under streams/values: every package there
+// declares Serialize<X>, Deserialize<X> and Less<X>; any other function is a new helper.
+func valuesOverlay() map[string][]byte {
+	if valuesOverlayDone {
+		return valuesOverlayMap
+	}
+	valuesOverlayDone = true
+	ents, err := os.ReadDir(repoDir + "/streams/values")
+	if err != nil {
+		return nil
+	}
+	for _, e := range ents {
+		if !e.IsDir() {
+			continue
+		}
+		dir := "streams/values/" + e.Name()
+		known := map[string]bool{}
+		fs := token.NewFileSet()
+		files, _ := os.ReadDir(repoDir + "/" + dir)
+		for _, f := range files {
+			if f.IsDir() || !strings.HasSuffix(f.Name(), ".go") || strings.HasSuffix(f.Name(), "_test.go") {
+				continue
+			}
+			af, err := parser.ParseFile(fs, repoDir+"/"+dir+"/"+f.Name(), nil, parser.SkipObjectResolution)
+			if err != nil {
+				continue
+			}
+			for _, d := range af.Decls {
+				if fd, ok := d.(*ast.FuncDecl); ok && fd.Recv == nil && valuesKnownName.MatchString(fd.Name.Name) {
+					known[fd.Name.Name] = true
+				}
+			}
+		}
+		valuesOverlayMap = mergeOverlays(valuesOverlayMap, inlineOverlay(dir, known, true))
+	}
+	return valuesOverlayMap
+}
+
+func mergeOverlays(a, b map[string][]byte) map[string][]byte {
+	if len(a) == 0 {
+		return b
+	}
+	if len(b) == 0 {
+		return a
+	}
+	out := map[string][]byte{}
+	for k, v := range a {
+		out[k] = v
+	}
+	for k, v := range b {
+		out[k] = v
+	}
+	return out
+}
+
+// compilerOverlay: the expanded sources as the compiler should see them (C11-R2): helpers every
+// call of which was expanded are blanked out (line structure kept), so that their bodies are
+// judged where they run — with the caller's guards in force — and not once more in isolation.
+func compilerOverlay() map[string][]byte {
+	all := mergeOverlays(mergeOverlays(pubOverlay(), streamsOverlay()), valuesOverlay())
+	if len(all) == 0 {
+		return nil
+	}
+	out := map[string][]byte{}
+	for k, v := range all {
+		out[k] = append([]byte{}, v...)
+	}
+	for _, info := range []*inlineInfo{lastInline, lastInlineStreams} {
+		for _, sp := range info.awaySpans {
+			b, ok := out[sp.file]
+			if !ok || sp.end > len(b) || sp.start < 0 {
+				continue
+			}
+			for i := sp.start; i < sp.end; i++ {
+				if b[i] != '\n' {
+					b[i] = ' '
+				}
+			}
+		}
+	}
+	return out
 }
 
 var pubOverlayDone bool
